@@ -314,6 +314,14 @@ func (c *Ctx) classifyStore(w *walkInfo, fn *ssa.Function, st *ssa.Store) (strin
 			return "local", ""
 		}
 	}
+	// *p = append(*p, v) with p a pointer to the result list kept in the walk's state (found: &violations)
+	if call, ok := st.Val.(*ssa.Call); ok {
+		if bi, isB := call.Call.Value.(*ssa.Builtin); isB && bi.Name() == "append" && len(call.Call.Args) > 0 {
+			if ld, isLd := call.Call.Args[0].(*ssa.UnOp); isLd && ld.Op == token.MUL && sameLoadedLoc(ld.X, addr, 0) {
+				return "accumulator", ""
+			}
+		}
+	}
 	if _, ok := base.(*ssa.Global); ok {
 		return "state", "package-level variable is assigned"
 	}
